@@ -421,6 +421,22 @@ func main() {
 				sop := fmt.Sprintf("submit id=%d from=%d nonce=%d v=%d kind=%s", id, a, n, id, kind)
 				res := do(sop)
 				r.Count("submit." + strings.Fields(res)[0])
+				if strings.HasPrefix(res, "full") && lastSnap != "" {
+					// "never drops an executable transaction while below its capacity": a refusal for lack of
+					// room is only right when a queue is at its limit (the snapshot taken just before)
+					np, nw := 0, 0
+					for _, fld := range strings.Fields(lastSnap) {
+						if strings.HasPrefix(fld, "P=") && len(fld) > 2 {
+							np = len(strings.Split(fld[2:], ","))
+						}
+						if strings.HasPrefix(fld, "W=") && len(fld) > 2 {
+							nw = len(strings.Split(fld[2:], ","))
+						}
+					}
+					if np < limit*10 && nw < limit*10 {
+						fail("transaction-refused-as-full-while-below-capacity", fmt.Sprintf("the pool refused a transaction with 'queue is full' while it held pending=%d waiting=%d with limits %d", np, nw, limit*10), res, "ok")
+					}
+				}
 				if res == "PANIC" {
 					fail("pool-panics", "a submission panics the pool", res, "")
 					dead = true
